@@ -8,6 +8,7 @@ open Dawgs.C14
 
 structure St where
   fixed : Bool := true
+  tomb : Bool := false          -- hooks/C14-fix3.patch semantics (proposal)
   am : AdjMap := {}
   csrb : CsrB := {}
   ts : TS := {}
@@ -37,7 +38,7 @@ def St.view (st : St) : String → Option View
   | "am" => some (amView st.am)
   | "csr" => some (csrView st.csrb.build)
   | "ts" => some { nodes := st.ts.nodes, numNodes := st.ts.numNodes, adj := st.ts.adjacent st.fixed }
-  | "proj" => some { nodes := st.curProj.nodes, numNodes := st.curProj.numNodes, adj := st.curProj.adjacent st.fixed }
+  | "proj" => some { nodes := st.curProj.nodes, numNodes := st.curProj.numNodes, adj := st.curProj.adjacentT st.tomb st.fixed }
   | _ => none
 
 def perNode (v : View) (f : Nat → String) : String :=
@@ -89,8 +90,8 @@ def parseWFilter (s : String) : Option (Edge → Option Nat) :=
 def fmtPTerm (t : PTerm) : String := s!"{t.node}@{t.dist}*{t.weight}"
 
 def St.adjE (st : St) : String → Option (Nat → Dir → List Edge)
-  | "ts" => some st.ts.adjacentEdges
-  | "proj" => some st.curProj.adjacentEdges
+  | "ts" => some (st.ts.adjacentEdgesT st.tomb)
+  | "proj" => some (st.curProj.adjacentEdgesT st.tomb)
   | _ => none
 
 def traverse (st : St) (bfs : Bool) (c dir md root filt : String) : String :=
@@ -110,15 +111,16 @@ def stateless (st : St) (c dir md root filt : String) : String :=
   | _, _, _, _, _ => "bad-op"
 
 def St.numEdges (st : St) : String → Option Nat
-  | "am" => some st.am.numEdges
+  | "am" => some (if st.fixed then st.am.numEdges else st.am.numEdgesOld)
   | "csr" => some st.csrb.build.numEdges
-  | "ts" => some st.ts.numEdges
-  | "proj" => some st.curProj.numEdges
+  | "ts" => some (st.ts.numEdgesT st.tomb)
+  | "proj" => some (st.curProj.numEdgesT st.tomb)
   | _ => none
 
 def step (st : St) (ts : List String) : St × String :=
   match ts with
-  | ["graph"] => ({ fixed := st.fixed }, "ok")
+  | ["graph"] => ({ fixed := st.fixed, tomb := st.tomb }, "ok")
+  | ["mode", "tomb"] => ({ st with tomb := true }, "ok")
   | ["mode", "fixed"] => ({ st with fixed := true }, "ok")
   | ["mode", "old"] => ({ st with fixed := false }, "ok")
   | ["node", n] => match n.toNat? with
@@ -195,7 +197,7 @@ def step (st : St) (ts : List String) : St × String :=
       -- gzip reader's buffer and therefore yields nothing for files under one 4096-byte buffer (F3).
       | some md, some zone =>
         let counts := zone.map (fun z =>
-          match tsTraverse true st.fixed (fun n => st.ts.adjacentEdges n .inn) .inn (fun e => !(zone.contains e.start)) md tsFuel z with
+          match tsTraverse true st.fixed (fun n => st.ts.adjacentEdgesT st.tomb n .inn) .inn (fun e => !(zone.contains e.start)) md tsFuel z with
           | some (segs, _) => segs.length
           | none => 0)
         (st, s!"written={counts.foldl (· + ·) 0} read=0 -")
@@ -205,8 +207,10 @@ def step (st : St) (ts : List String) : St × String :=
 def suite : Suite := { σ := St, init := {}, step := step }
 /-- the same model started with the pre-repair definitions (selected by `VERIF_C14_MODE=old`). -/
 def suiteOld : Suite := { σ := St, init := { fixed := false }, step := step }
+/-- the live model plus the semantics of the proposed hooks/C14-fix3.patch (selected by `VERIF_C14_TOMB=1`). -/
+def suiteTomb : Suite := { σ := St, init := { tomb := true }, step := step }
 
 end Driver.C14
 
 def Driver.C14.suites : List (String × Driver.Suite) :=
-  [("c14", Driver.C14.suite), ("c14old", Driver.C14.suiteOld)]
+  [("c14", Driver.C14.suite), ("c14old", Driver.C14.suiteOld), ("c14t", Driver.C14.suiteTomb)]
